@@ -170,7 +170,66 @@ func loadSpecs(pkgs []*packages.Package) (*SpecDB, error) {
 			db.Ghosts[g.Name] = g
 		}
 	}
+	// `uses` clauses are assumed, so they may only be built from applications of (separately proved) lemmas
+	for _, key := range sortedContractKeys(db.Contracts) {
+		c := db.Contracts[key]
+		var all []SExpr
+		all = append(all, c.Uses...)
+		all = append(all, c.UsesPost...)
+		for _, l := range c.Loops {
+			all = append(all, l.Uses...)
+		}
+		for _, u := range all {
+			if !db.isLemmaUse(u, 0) {
+				return nil, fmt.Errorf("contract %s: a uses clause must consist of lemma applications (under let / forall / && / ==>)", key)
+			}
+		}
+	}
+	for name, l := range db.Lemmas {
+		for _, u := range l.Uses {
+			if !db.isLemmaUse(u, 0) {
+				return nil, fmt.Errorf("lemma %s: a uses clause must consist of lemma applications", name)
+			}
+		}
+	}
 	return db, nil
+}
+
+func sortedContractKeys(m map[string]*FuncContract) []string {
+	var ks []string
+	for k := range m {
+		ks = append(ks, k)
+	}
+	sort.Strings(ks)
+	return ks
+}
+
+func (db *SpecDB) isLemmaUse(e SExpr, depth int) bool {
+	switch n := e.(type) {
+	case SIdent:
+		return db.Lemmas[n.Name] != nil
+	case SLet:
+		return db.isLemmaUse(n.Body, depth)
+	case SQuant:
+		return n.Kind == "forall" && db.isLemmaUse(n.Body, depth)
+	case SBinary:
+		if n.Op == "&&" {
+			return db.isLemmaUse(n.X, depth) && db.isLemmaUse(n.Y, depth)
+		}
+		if n.Op == "==>" {
+			return db.isLemmaUse(n.Y, depth)
+		}
+	case SCall:
+		if id, ok := n.Fun.(SIdent); ok {
+			if db.Lemmas[id.Name] != nil {
+				return true
+			}
+			if sf := db.SpecFuncs[id.Name]; sf != nil && sf.Body != nil && depth < 5 {
+				return db.isLemmaUse(sf.Body, depth+1)
+			}
+		}
+	}
+	return false
 }
 
 func specLines(f *ast.File) []string {
